@@ -50,10 +50,16 @@ def exportBpe (orig : List (Id × Bytes)) (arrived : List (Id × Bytes)) : List 
   let rankOf (b : Bytes) : Nat := (orig.findIdx? (fun t => t.2 == b)).getD orig.length
   arrived.mergeSort fun x y => rankOf x.2 < rankOf y.2 || (rankOf x.2 == rankOf y.2 && x.1 ≤ y.1)
 
-/-- `Unigram::model`: sort by (score, id); `partial_cmp(..).unwrap()` panics on NaN. -/
+/-- Order of the Unigram export: score, then id, then bytes (the bytes since the F26 repair: two entries with
+    equal score and id used to compare equal, and their order came from the hash map). -/
+def uniExportLe (x y : (Id × Bytes) × UInt32) : Bool :=
+  f32Key x.2 < f32Key y.2 ||
+    (f32Key x.2 == f32Key y.2 && (x.1.1 < y.1.1 || (x.1.1 == y.1.1 && bytesLe x.1.2 y.1.2)))
+
+/-- `Unigram::model`: sort by (score, id, bytes); `partial_cmp(..).unwrap()` panics on NaN. -/
 def exportUnigram (arrived : List ((Id × Bytes) × UInt32)) : Res (List ((Id × Bytes) × UInt32)) :=
   if arrived.any (fun e => f32IsNaN e.2) ∧ arrived.length > 1 then .panic "Unigram::model: partial_cmp unwrap"
-  else .ok (arrived.mergeSort fun x y => f32Key x.2 < f32Key y.2 || (f32Key x.2 == f32Key y.2 && x.1.1 ≤ y.1.1))
+  else .ok (arrived.mergeSort uniExportLe)
 
 /-- `WordPiece::model`: sort by (id, bytes) over the word-initial entries and the re-prefixed continuations. -/
 def exportWordPiece (arrived : List (Id × Bytes)) : List (Id × Bytes) :=
